@@ -3,6 +3,7 @@ C06 — a failing branch fails its Parallel/Map once; siblings cannot disturb th
 -/
 import AslModel.Fan
 import AslModel.Retry
+import Proofs.Lemmas.FanProto
 namespace Asl.C06
 open Asl
 
@@ -104,5 +105,133 @@ example : (Fan.run 3 [.done 1 (.num 1), .fail 0 (S "E"), .done 2 (.num 2), .fail
     = [.failWith (S "E"), .cancel 2] := by decide
 example : (Fan.run 2 [.done 1 (.num 1), .done 0 (.num 0), .fail 1 (S "late")]).effects
     = [.succeed [.num 0, .num 1]] := by decide
+
+/-! ## nested fan-outs under arbitrary interleavings: the protocol model `AslModel/FanProto.lean`
+
+`run q init is` runs the model on ANY sequence `is` of launches, branch events, deferred handlers, task replies / wait
+expiries, cancellation callbacks, top-level endings and back-stop ticks (attempt ids, branch indices, continuations and
+Retry / Catch decisions arbitrary); `Quirks.none` is the repaired protocol, `Quirks.asCode` the code as it is
+(findings C06-F3, C06-F4, C06-F5: each switch has its negation witness below). -/
+section FanProto
+open Asl.FanProto
+
+/-- (ii) in the output sequence of ANY run, under any switches, no hand-over of attempt `a` comes after a failure of `a`:
+once an attempt has failed its join never hands over a result, whatever arrives afterwards — results of its own branches,
+of attempts nested in them, late events, replies, deferred handlers, in any order -/
+theorem terminated_attempt_never_succeeds (q : Quirks) (is : List Inp) (a : Nat) (e : Err) (vs : List Nat)
+    (pre post : List Out) (h : (run q init is).2 = pre ++ Out.failAttempt a e :: post) : Out.succeed a vs ∉ post :=
+  run_no_succeed_after_fail q init is wf_init a e vs pre post h
+
+/-- … in particular not in answer to anything that arrives later -/
+theorem terminated_attempt_never_succeeds_later (q : Quirks) (is1 is2 : List Inp) (a : Nat) (e : Err) (vs : List Nat)
+    (h : Out.failAttempt a e ∈ (run q init is1).2) : Out.succeed a vs ∉ (run q (run q init is1).1 is2).2 :=
+  run_dead_no_succeed q _ is2 a vs (run_fail_dead q init is1 a wf_init (Or.inl ⟨e, h⟩))
+
+/-- (iii) the first failure wins: in the repaired protocol an attempt that has failed is never failed (nor torn down) again,
+so its state's Retry / Catch runs at most once per attempt … -/
+theorem first_failure_wins (is1 is2 : List Inp) (a : Nat) (e e' : Err)
+    (h : Out.failAttempt a e ∈ (run Quirks.none init is1).2) :
+    Out.failAttempt a e' ∉ (run Quirks.none (run Quirks.none init is1).1 is2).2 ∧
+    Out.aborted a ∉ (run Quirks.none (run Quirks.none init is1).1 is2).2 :=
+  run_dead_no_fail Quirks.none rfl _ is2 a e' (run_fail_dead Quirks.none init is1 a wf_init (Or.inl ⟨e, h⟩))
+
+/-- … and every attempt the failure of a branch fails, up the chain of enclosing attempts, fails with that branch's error -/
+theorem failure_carries_branch_error (q : Quirks) (s : Proto) (a i b : Nat) (e e' : Err) (hs : List Handled)
+    (h : Out.failAttempt b e' ∈ (step q s (.event a i (.fail e hs))).2) : e' = e :=
+  event_fail_error q s a i b e e' hs h
+
+/-- (iv) after the execution has ended nothing that arrives — in any order, any number of times — produces anything but
+acknowledgements / drops, cancels, tear-downs and the deletion of the retained metadata: no progress, no result, no
+failure hand-over, no retry, no catch transition, no second ending -/
+theorem late_inputs_inert_after_end (is1 is2 : List Inp) (ok : Bool)
+    (h : Out.endExecution ok ∈ (run Quirks.none init is1).2) :
+    ∀ o ∈ (run Quirks.none (run Quirks.none init is1).1 is2).2, o.quiet = true :=
+  run_quiet_after_end _ is2 (run_inv init is1 inv_init) (run_end_ended init is1 ok h)
+
+/-- (v) drained when quiet: in every reachable state of an ended execution the metadata is retained only while some
+results entry still waits for a result — when no slot is unresolved any more (every outstanding event has been consumed:
+delivered or dropped) it is gone … -/
+theorem drained_when_quiet (is : List Inp) (he : (run Quirks.none init is).1.ended.isSome = true)
+    (hq : ∀ x ∈ (run Quirks.none init is).1.atts, x.seen = true → x.slots.any Slot.unresolved = false) :
+    (run Quirks.none init is).1.hasMeta = false := by
+  cases hm : (run Quirks.none init is).1.hasMeta with
+  | false => rfl
+  | true =>
+    obtain ⟨x, hx, hs, hu⟩ := (run_inv init is inv_init).pending he hm
+    rw [hq x hx hs] at hu
+    cases hu
+
+/-- … and whatever is still retained then is discarded by the next back-stop tick, without another ending -/
+theorem backstop_discards_retained (s : Proto) (he : s.ended.isSome = true) :
+    (step Quirks.none s .backstop).1.hasMeta = false ∧ ∀ o ∈ (step Quirks.none s .backstop).2, o = Out.discard := by
+  simp only [step, he, if_true]
+  split
+  · rename_i h
+    simp only [Bool.not_eq_true'] at h
+    exact ⟨h, by intro o ho; cases ho⟩
+  · exact ⟨rfl, by intro o ho; simpa using ho⟩
+
+/-- (vi) a Retry launches a fresh attempt: in the repaired protocol whatever is addressed to the old, terminated attempt `a`
+(a late event, deferred handler, reply or cancellation callback of any of its branches) changes no other attempt that is
+alive — in particular not the new attempt — and produces nothing but tidy-up outputs -/
+theorem retry_launches_fresh_attempt (s : Proto) (a b i : Nat) (x : Attempt) (inp : Inp)
+    (hrun : s.ended = none) (hx : find s.atts a = some x) (ht : x.terminated = true)
+    (hne : b ≠ a) (hb : deadChain s.atts b = false)
+    (hinp : (∃ k, inp = .event a i k) ∨ (∃ k, inp = .deferred a i k) ∨ (∃ k, inp = .reply a i k) ∨ inp = .echo a i) :
+    find (step Quirks.none s inp).1.atts b = find s.atts b ∧ ∀ o ∈ (step Quirks.none s inp).2, o.quiet = true :=
+  old_attempt_inputs_inert s a b i x inp hrun hx ht hne hb hinp
+
+/-! ### the switches of the open findings break exactly these statements (negations, proved on concrete witnesses) -/
+
+/-- the outer attempt 0 (two branches) fails and is retried while attempt 1, nested in its branch 1, has a task out -/
+def nestedRetried : List Inp :=
+  [.launch 0 2 none 0, .event 0 1 .goesOn, .launch 1 1 (some (0, 1)) 0, .event 1 0 .arm,
+   .event 0 0 (.fail (.plain 1) [.retried])]
+/-- … then the nested attempt's task fails too -/
+def nestedFailsLater : List Inp := [.reply 1 0 (.fail (.plain 2) [.uncaught, .retried])]
+
+/-- C06-F3 (`refail`): the terminated attempt 0 is failed again, with the other error, and retried a second time -/
+theorem refail_breaks_first_failure_wins :
+    Out.failAttempt 0 (.plain 1) ∈ (run { refail := true } init nestedRetried).2 ∧
+    Out.failAttempt 0 (.plain 2) ∈ (run { refail := true } (run { refail := true } init nestedRetried).1 nestedFailsLater).2 ∧
+    Out.retry 0 1 ∈ (run { refail := true } (run { refail := true } init nestedRetried).1 nestedFailsLater).2 := by decide
+
+/-- three levels: attempt 2 in attempt 1 in branch 1 of attempt 0; branch 0 of attempt 0 fails unhandled: the execution ends -/
+def deepThenOuterFails : List Inp :=
+  [.launch 0 2 none 0, .event 0 1 .goesOn, .launch 1 1 (some (0, 1)) 0, .event 1 0 .goesOn,
+   .launch 2 1 (some (1, 0)) 0, .event 2 0 .goesOn, .event 0 0 (.fail (.plain 1) [])]
+/-- … then the queued event of the innermost branch is delivered -/
+def deepEventLater : List Inp := [.event 2 0 (.done 7 [true, true, true])]
+
+/-- C06-F4 (`oneLevel`): after the end the innermost event is accepted and two joins hand over -/
+theorem one_level_lookup_breaks_inertness :
+    Out.endExecution false ∈ (run { oneLevel := true } init deepThenOuterFails).2 ∧
+    Out.progress 2 0 ∈ (run { oneLevel := true } (run { oneLevel := true } init deepThenOuterFails).1 deepEventLater).2 ∧
+    Out.succeed 1 [7] ∈ (run { oneLevel := true } (run { oneLevel := true } init deepThenOuterFails).1 deepEventLater).2 := by decide
+
+/-! non-vacuity: the hypotheses of the theorems above are met by these runs, and the repaired protocol does what they say -/
+example : Out.failAttempt 0 (.plain 1) ∈ (run Quirks.none init nestedRetried).2 := by decide
+example : (run Quirks.none init nestedRetried).2 =
+    [.launched 0, .progress 0 1, .launched 1, .progress 1 0, .progress 0 0] ++ Out.failAttempt 0 (.plain 1) :: [.retry 0 1] := by decide
+example : (run Quirks.none (run Quirks.none init nestedRetried).1 nestedFailsLater).2 =
+    [.progress 1 0, .failAttempt 1 (.plain 2)] := by decide
+example : Out.endExecution false ∈ (run Quirks.none init deepThenOuterFails).2 := by decide
+example : (run Quirks.none (run Quirks.none init deepThenOuterFails).1 deepEventLater).2 = [.drop 2 0, .discard] := by decide
+example : (run Quirks.none init deepThenOuterFails).1.ended.isSome = true ∧ (run Quirks.none init deepThenOuterFails).1.hasMeta = true ∧
+    (run Quirks.none init (deepThenOuterFails ++ deepEventLater)).1.hasMeta = false := by decide
+example : (step Quirks.none (run Quirks.none init deepThenOuterFails).1 .backstop).2 = [.discard] := by decide
+/-- (vi): attempt 0 retried, attempt 3 launched in its place; a late reply for the old nested attempt 1 … -/
+example : (run Quirks.none init (nestedRetried ++ [.launch 3 2 none 1, .event 3 0 .goesOn])).1.ended = none ∧
+    deadChain (run Quirks.none init (nestedRetried ++ [.launch 3 2 none 1, .event 3 0 .goesOn])).1.atts 3 = false ∧
+    (find (run Quirks.none init (nestedRetried ++ [.launch 3 2 none 1, .event 3 0 .goesOn])).1.atts 0).map (·.terminated) = some true := by
+  decide
+example : (step Quirks.none (run Quirks.none init nestedRetried).1 (.event 0 0 (.fail (.plain 5) []))).2 = [.drop 0 0] := by
+  decide
+/-- an unhandled failure of the innermost branch fails all three attempts of the chain with the same error -/
+example : (step Quirks.none (run Quirks.none init (deepThenOuterFails.take 6)).1 (.event 2 0 (.fail (.plain 9) []))).2 =
+    [.progress 2 0, .failAttempt 2 (.plain 9), .failAttempt 1 (.plain 9), .failAttempt 0 (.plain 9), .endExecution false] := by
+  decide
+
+end FanProto
 
 end Asl.C06
